@@ -146,6 +146,7 @@ pub struct Snap {
     pub t_ms: u64,
     pub bytes_read: u64,
     pub closed: bool,
+    pub shutdown_calls: u64,
 }
 
 #[derive(Clone, Debug)]
@@ -259,6 +260,7 @@ pub fn run_scenario(sc: &Scenario) -> Outcome {
                 t_ms: now_ms,
                 bytes_read: io.bytes_read(),
                 closed: io.closed(),
+                shutdown_calls: io.0.borrow().shutdown_calls,
             });
         }
         let stalled = !d.done() && !d.woken() && !livelock;
